@@ -312,6 +312,13 @@ pub fn gen(prop: &str, seed: u64, thorough: bool, out: &mut impl Write) {
                 for t in all_trees(if thorough { 4 } else { 3 }) {
                     emit(out, &Case::new(313).prior(4, 0, iflag).args(&t));
                 }
+                // "for every nesting depth": plain chains far deeper than any fixed-width bookkeeping
+                for d in [63u64, 64, 65, 66, 127, 128, 129, 255, 256, 257, 300, 1000] {
+                    let mut t = vec![];
+                    for _ in 0..d { t.push(1); t.push(1); }
+                    t.push(0);
+                    emit(out, &Case::new(313).prior(4, 0, iflag).args(&t));
+                }
                 // closures that open an interrupt window (enable ... disable) around a nested call
                 for t in [vec![1u64, 1, 2, 1, 1, 1, 0], vec![1, 2, 0, 2, 2, 1, 1, 0, 0], vec![2, 1, 1, 1, 0], vec![1, 1, 2, 2, 1, 2, 0, 0, 1, 0], vec![1, 1, 1, 1, 2, 1, 1, 1, 0]] {
                     emit(out, &Case::new(313).prior(4, 0, iflag).args(&t));
